@@ -18,7 +18,7 @@ PLAN = dict(
           "patterns vs Dewey::matches, alternations vs the union of their expansions, on names mutated at "
           "positions 0 and 1. Plus the real pkgsrc glob patterns x real names. Non-trivial = every glob case "
           "and every plain case (names differ from a match in <= 1 character by construction); distinct by "
-          "pattern fingerprint. Later additions: ']' as first member of a set; Unicode look-alikes of ASCII digits and letters in names; a leading / trailing piece or the whole name repeated; pairs of glob patterns that collide under common fast hash functions (birthday search at run time), checked first, second, first again; ranges with punctuation end points ('[--9]', '[+--]'), '-' as first / last member, one set position swept over every printable ASCII character."),
+          "pattern fingerprint. Later additions: ']' as first member of a set; Unicode look-alikes of ASCII digits and letters in names; a leading / trailing piece or the whole name repeated; pairs of glob patterns that collide under common fast hash functions (birthday search at run time), checked first, second, first again; ranges with punctuation end points ('[--9]', '[+--]'), '-' as first / last member, one set position swept over every printable ASCII character. Round 10: leading groups whose 2-3 alternatives are globs of their own (later ones often sharing the first character of the first, any of them possibly empty, also the last) followed by a tail, with names from the language of every alternative, against the union of the expansions."),
     exhaustive={"quick": "every pattern of length <= 4 over {a,b,*,?,[,],!,-} (in-subset ones compared, unclosed '[' must be rejected) x all 40 names of length <= 3 over {a,b,-}",
                 "thorough": "every pattern of length <= 5 over {a,b,*,?,[,],!,-} x all 40 names of length <= 3 over {a,b,-}"},
     technique="runtime monitor: differential test against a reference shell-glob matcher and shortcut-free partners (glob crate, equality, Dewey, expansion union)",
